@@ -557,3 +557,18 @@ def spec_features(spec):
         n_comp=len(spec["comps"]), nested=any(c["children"] for c in spec["comps"]),
         absence=len(spec["sim"]["absence"]),
     )
+
+
+def add_idle_parts(rng, spec):
+    """Model parts that never do anything: a team without workers (a placeholder), a workplace without
+    facilities, a component without tasks.  They still have per-step logs."""
+    k = len(spec["teams"])
+    targets = sorted(rng.sample(range(len(spec["tasks"])), rng.randint(0, min(2, len(spec["tasks"])))))
+    spec["teams"].append(dict(name="reserve", id="TM%d" % k, targets=targets, workers=[]))
+    if rng.random() < 0.5:
+        k = len(spec["wps"])
+        spec["wps"].append(dict(name="yard", id="WP%d" % k, max_space=rng.choice([1.0, 3.0]), inputs=[], targets=[], facilities=[]))
+    if rng.random() < 0.5:
+        k = len(spec["comps"])
+        spec["comps"].append(dict(name="spare", id="C%d" % k, space=1.0, children=[]))
+    return spec
